@@ -12,6 +12,7 @@ package main
 import (
 	"context"
 	"encoding/json"
+	"errors"
 	"flag"
 	"fmt"
 	"math"
@@ -22,6 +23,7 @@ import (
 	"strings"
 	"sync"
 
+	"github.com/ozontech/seq-db/consts"
 	"github.com/ozontech/seq-db/frac"
 	"github.com/ozontech/seq-db/frac/processor"
 	"github.com/ozontech/seq-db/fracmanager"
@@ -54,6 +56,10 @@ type world struct {
 	// "malformed" = general decimals plus tokens parseNum rejects; "repeats" = few general decimals and few groups
 	// (a field token occurs several times in one bin: InsertNTimes with cnt > 1). Only float cases are emitted for these.
 	fkind string
+	// order in which a document's tokens are handed to the indexer (an active fraction numbers its TIDs in arrival
+	// order: with the aggregated field first its TIDs are small and collide with source indices)
+	tokOrder []string
+	cfg      *fracmanager.Config // the manager's configuration: AggLimits are switched between searches
 }
 
 var groupNames = map[string][]string{
@@ -127,6 +133,23 @@ func exactValue(r *rng.R, k int64) string {
 		s = fmt.Sprintf("%d.%04de1", n/100000, n%100000/10)
 		if n%10 != 0 {
 			s = fmt.Sprintf("%d.%05de1", n/100000, n%100000)
+		}
+	}
+	// numbers that arrive as JSON strings: zero-padded integers ("010", "0017", "08"), "5.", ".5", "1e2"
+	switch r.Intn(6) {
+	case 0:
+		if fp == 0 {
+			s = strings.Repeat("0", r.Range(1, 3)) + fmt.Sprint(ip)
+		} else if ip == 0 {
+			s = "." + strings.TrimRight(fmt.Sprintf("%04d", fp), "0")
+		}
+	case 1:
+		if fp == 0 && r.Bool() {
+			s = fmt.Sprintf("%d.", ip)
+		} else if fp == 0 && ip%100 == 0 && ip > 0 {
+			s = fmt.Sprintf("%de2", ip/100)
+		} else if fp == 0 {
+			s = fmt.Sprintf("%03d", ip)
 		}
 	}
 	if neg {
@@ -230,8 +253,23 @@ func genWorld(seed uint64, idx int, tier string) *world {
 		pool = append(pool, generalValue(r), generalValue(r))
 		pool = append(pool, bp[:r.Range(1, 3)]...)
 	}
+	if !w.exact && w.huge == 0 && w.fkind != "repeats" {
+		// unusual but valid renderings (numbers sent as JSON strings): zero-padded, "+5", ".5", "5.", hex floats, long digit strings
+		wv := validWeird()
+		rng.Shuffle(r, wv)
+		pool = append(wv[:r.Range(1, 3)], pool...)
+	}
+	if w.fkind == "malformed" {
+		bp := append([]string{}, badPool2...)
+		rng.Shuffle(r, bp)
+		pool = append(pool, bp[:r.Range(1, 2)]...)
+	}
 	if !w.exact && len(pool) > 12 {
 		pool = pool[:12] // at most 12 distinct field tokens per bin: the map-order witness search stays small
+	}
+	w.tokOrder = []string{"m", "g", "h", "v", "w"}
+	if idx%2 == 1 {
+		rng.Shuffle(r, w.tokOrder)
 	}
 	span := uint64(r.Range(1, 5000))
 	w.fracs = make([][]doc, nf)
